@@ -23,6 +23,14 @@ For every module of the package `lena` below <repo> an AST + symtable pass produ
             References guarded by `except NameError` / `except AttributeError` (or broader) are left
             out, dead branches are pruned as above.
   dyndefs   names a function may create in the module namespace (`global x` + assignment).
+  refl      per function: references to a name of a module namespace by a *computed* string
+            (getattr(M, e), M.__dict__[e], vars(M)[e], globals()[e], sys.modules[__name__]): the chain that
+            gives the namespace, the strings e can evaluate to (reflnames.py: literal pieces and holes,
+            holes bounded by the code or instantiated over a small universe of argument values), the
+            exception classes enclosing handlers catch, whether the presence of the name is tested.
+            getattr(M, "literal") is the static chain M.literal.
+  dynstore  modules into whose namespace some function stores names it computes (globals()[e] = v,
+            setattr(M, e, v)): reflective loads from them are not judged.
 
 Nothing is imported from the tree under test; only external modules named in import statements are
 probed with importlib (to decide which branch of a try/except ImportError runs).
@@ -37,6 +45,7 @@ import symtable
 import sys
 
 from . import localflow
+from . import reflnames
 
 OBJ = "<obj>"
 EXT = "<ext>"
@@ -157,6 +166,11 @@ def _catches(handler, names):
 _NAMEERR = ("NameError", "Exception", "BaseException")
 _ATTRERR = ("AttributeError", "Exception", "BaseException")
 _IMPERR = ("ImportError", "ModuleNotFoundError", "Exception", "BaseException")
+_KEYERR = ("KeyError", "LookupError", "Exception", "BaseException")
+# attributes every module object has through its type (not entries of its namespace): a chain leaves the
+# module namespaces of the model there
+_TYPE_ATTRS = (frozenset(dir(type(sys))) | frozenset(["__dict__"])) - frozenset(
+    ["__doc__", "__name__", "__file__", "__path__", "__package__", "__spec__", "__loader__", "__cached__", "__builtins__"])
 
 
 # --------------------------------------------------------------------------- statements
@@ -185,8 +199,11 @@ class _Env(object):
         self.parent = parent
         self.children = list(table.get_children())
         self.localmods = {}         # names bound by import statements inside a function -> module
+        self.localfrom = {}         # names bound by `from m import n` inside a function -> (m, n)
         self.guard_name = False
         self.guard_attr = False
+        self.guard_key = False
+        self.fnode = None           # ast node of the function (call-time scopes)
         self.qual = ""
         self.bound = set()          # comprehension targets (kind == "comp")
 
@@ -209,11 +226,20 @@ class _Env(object):
                 return self.children.pop(k)
         raise ExtractError("no symbol table for scope %s at line %d" % (name, lineno))
 
-    def lookup_localmod(self, name):
+    def fnodes(self):
+        """The function definitions around this scope, innermost first."""
+        out, e = [], self
+        while e is not None and e.calltime:
+            if e.fnode is not None:
+                out.append(e.fnode)
+            e = e.parent
+        return out
+
+    def lookup_localmod(self, name, table="localmods"):
         e = self
         while e is not None and e.calltime:
-            if name in e.localmods:
-                return e.localmods[name]
+            if name in getattr(e, table):
+                return getattr(e, table)[name]
             # a name bound in an inner scope hides outer import bindings
             try:
                 s = e.table.lookup(name)
@@ -235,6 +261,10 @@ class ModuleExtractor(object):
         self.all = None
         self.funcs = []
         self.dyndefs = set()
+        self.dynstore = set()       # modules into whose namespace a function stores computed names
+        self.brefl = {}             # id -> lookup by computed name in import-time code (statement "refl")
+        self._modscope = None
+        self._helpers = None
         self.dynattr = False        # the module defines __getattr__ (PEP 562): any attribute of it may exist
         self.hstack = []            # enclosing try statements of import-time code: {"I" / "N" / "A": _Label or None}
         self.modfuncs = {}          # functions defined at module level: name -> record (calls at import time)
@@ -262,7 +292,7 @@ class ModuleExtractor(object):
 
     def new_func(self, qual, line):
         rec = {"id": "%s:%s" % (self.modname, qual), "mod": self.modname, "line": line, "end": line,
-               "imports": [], "loads": {}, "chains": {}, "flows": []}
+               "imports": [], "loads": {}, "chains": {}, "flows": [], "refl": []}
         self.funcs.append(rec)
         return rec
 
@@ -313,6 +343,10 @@ class ModuleExtractor(object):
     def ref_chain(self, env, root, links, line):
         """root.l1.l2... evaluated (all links are loads)."""
         self.ref_name(env, root, line)
+        for k, ln in enumerate(links):
+            if ln in _TYPE_ATTRS:
+                links = links[:k]       # M.__dict__, M.__class__: not a name of the namespace of M
+                break
         if not links or env.guard_attr or env.comp_bound(root):
             return
         if env.calltime:
@@ -334,6 +368,167 @@ class ModuleExtractor(object):
                 except KeyError:
                     return
             self.add(stmt("use", line, root=root, links=links))
+
+    # ------------------------------------------------------------------ reflective references
+    def _sys_modules_item(self, node):
+        """sys.modules[__name__] / sys.modules["lena.x.y"]: the module, else None."""
+        if not (isinstance(node, ast.Subscript) and isinstance(node.value, ast.Attribute)
+                and node.value.attr == "modules" and isinstance(node.value.value, ast.Name)
+                and node.value.value.id == "sys"):
+            return None
+        if isinstance(node.slice, ast.Name) and node.slice.id == "__name__":
+            return self.modname
+        if isinstance(node.slice, ast.Constant) and node.slice.value in self.all_modules:
+            return node.slice.value
+        return None
+
+    def module_expr(self, env, node, scope, depth=0):
+        """(root, rv, links) of an expression that may evaluate to a module of the tree (read like an attribute
+        chain: rv is the module the root is known to be bound to, "" = look the root up in the module namespace),
+        or None when the expression is not a chain rooted at a global / import-bound name."""
+        links = []
+        n = node
+        while isinstance(n, ast.Attribute):
+            links.append(n.attr)
+            n = n.value
+        links.reverse()
+        if any(ln in _TYPE_ATTRS for ln in links):
+            return None
+        if self._sys_modules_item(n) is not None:
+            return ("", self._sys_modules_item(n), tuple(links))
+        if not isinstance(n, ast.Name) or env.comp_bound(n.id):
+            return None
+        root = n.id
+        rv = env.lookup_localmod(root)
+        if rv is not None:
+            return (root, rv, tuple(links))
+        lf = env.lookup_localmod(root, "localfrom")
+        if lf is not None:
+            return ("", lf[0], (lf[1],) + tuple(links))     # the attribute n of the module m
+        if env.kind == "module":
+            return (root, "", tuple(links))     # the model knows which module-level names are bound to modules
+        try:
+            sym = env.table.lookup(root)
+        except KeyError:
+            return None
+        if sym.is_global():
+            return (root, "", tuple(links))
+        if not env.calltime:
+            return None
+        if depth < 2:
+            # a local alias: mod = lena.output.to_csv; getattr(mod, ...)
+            binds = scope.assignments(root)
+            if len(binds) == 1 and binds[0][0] == "val":
+                inner = self.module_expr(env, binds[0][1], scope, depth + 1)
+                if inner is not None:
+                    return (inner[0], inner[1], inner[2] + tuple(links))
+        return None
+
+    def namespace_expr(self, env, node, scope):
+        """The module whose namespace dict the expression is: globals(), vars(M), M.__dict__."""
+        if isinstance(node, ast.Call) and isinstance(node.func, ast.Name) and not node.keywords:
+            if node.func.id == "globals" and not node.args:
+                return ("", self.modname, ())
+            if node.func.id == "vars" and len(node.args) == 1:
+                return self.module_expr(env, node.args[0], scope)
+        elif isinstance(node, ast.Attribute) and node.attr == "__dict__":
+            return self.module_expr(env, node.value, scope)
+        return None
+
+    def helper(self, name):
+        """The function definition of this module with that name, if there is exactly one."""
+        if self._helpers is None:
+            self._helpers = {}
+            for n in ast.walk(self.tree):
+                if isinstance(n, (ast.FunctionDef, ast.AsyncFunctionDef)):
+                    self._helpers.setdefault(n.name, []).append(n)
+        defs = self._helpers.get(name, [])
+        return defs[0] if len(defs) == 1 else None
+
+    def scope_of(self, env):
+        if env.calltime:
+            return reflnames.Scope(env.fnodes(), helpers=self.helper)
+        if self._modscope is None:
+            self._modscope = reflnames.Scope([self.tree], shallow=True, helpers=self.helper)
+        return self._modscope
+
+    def add_refl(self, env, how, chain, name, line, scope):
+        alts = reflnames.aeval(name, scope)
+        names, is_open = reflnames.instances(alts)
+        if how == "getattr":
+            names = [n for n in names if n not in _TYPE_ATTRS]
+
+        def enc(x):
+            return "".join(c if (" " <= c <= "~" and c not in '"\\') else "?" for c in x)
+        catches = [c for c, g in (("AttributeError", env.guard_attr), ("KeyError", env.guard_key)) if g]
+        rec = {"root": chain[0], "rv": chain[1], "links": list(chain[2]), "how": how,
+               "names": sorted(set(enc(n) for n in names)), "open": bool(is_open),
+               "pat": enc(reflnames.pattern(alts)), "catches": catches, "tested": scope.tested(name), "line": line}
+        if env.calltime:
+            if rec not in env.func["refl"]:
+                env.func["refl"].append(rec)
+            return
+        # import time: the run of the body is one path without arguments; only lookups whose candidate strings the
+        # code bounds are modelled, and one that a handler of KeyError protects is left out (AttributeError handlers
+        # are positions of the body, see add())
+        if rec["open"] or env.guard_attr or (how == "item" and any(c.get("K") is not None for c in self.hstack)):
+            return
+        key = "%s@%d#%d" % (self.modname, line, len(self.brefl))
+        self.brefl[key] = rec
+        self.add(stmt("refl", line, name=key))
+
+    def add_dynstore(self, chain):
+        """A function stores names it computes into the namespace the chain evaluates to (resolved textually)."""
+        if chain is None:
+            return
+        root, rv, links = chain
+        base = rv or root
+        cand = ".".join([base] + list(links)) if base else ""
+        if cand in self.all_modules:
+            self.dynstore.add(cand)
+
+    def reflective_call(self, env, node):
+        f = node.func
+        if any(isinstance(a, ast.Starred) for a in node.args) or node.keywords:
+            return
+        scope = self.scope_of(env)
+        if isinstance(f, ast.Name) and f.id == "getattr" and len(node.args) == 2:
+            # (with a third argument nothing is raised)
+            chain = self.module_expr(env, node.args[0], scope)
+            if chain is None:
+                return
+            name = node.args[1]
+            if isinstance(name, ast.Constant) and isinstance(name.value, str) and name.value not in _TYPE_ATTRS:
+                # the static chain M.name
+                if not scope.tested(name) and not env.guard_attr:
+                    root, rv, links = chain
+                    if root == "":
+                        root = "__name__"       # sys.modules[__name__]: rv is this module
+                    if env.calltime:
+                        env.func["chains"].setdefault((root, rv, tuple(links) + (name.value,)), node.lineno)
+                    else:
+                        self.add(stmt("use", node.lineno, root=root, rv=rv, links=list(links) + [name.value]))
+                return
+            self.add_refl(env, "getattr", chain, name, node.lineno, scope)
+        elif isinstance(f, ast.Name) and f.id == "setattr" and len(node.args) == 3:
+            if not isinstance(node.args[1], ast.Constant):
+                self.add_dynstore(self.module_expr(env, node.args[0], scope))
+        elif isinstance(f, ast.Attribute) and f.attr in ("update", "setdefault", "__setitem__"):
+            self.add_dynstore(self.namespace_expr(env, f.value, scope))
+
+    def reflective_item(self, env, node):
+        scope = self.scope_of(env)
+        ns = self.namespace_expr(env, node.value, scope)
+        if ns is None:
+            return
+        if isinstance(node.ctx, ast.Load):
+            self.add_refl(env, "item", ns, node.slice, node.lineno, scope)
+        elif isinstance(node.ctx, ast.Store):
+            if isinstance(node.slice, ast.Constant) and isinstance(node.slice.value, str) and ns[1] == self.modname \
+                    and not ns[2]:
+                self.dyndefs.add(node.slice.value)
+            else:
+                self.add_dynstore(ns)
 
     # ------------------------------------------------------------------ expressions
     def expr(self, env, node):
@@ -383,6 +578,7 @@ class ModuleExtractor(object):
                 sub = _Env(tab, "function", True, env.func, env)
             else:
                 sub = _Env(tab, "function", True, self.new_func("<lambda>@%d" % node.lineno, node.lineno), env)
+            sub.fnode = node
             self.expr(sub, node.body)
             return
         if isinstance(node, (ast.ListComp, ast.SetComp, ast.GeneratorExp, ast.DictComp)):
@@ -394,7 +590,7 @@ class ModuleExtractor(object):
             sub = _Env(tab or env.table, "comp", env.calltime, env.func, env)
             if tab is None:
                 sub.children = env.children     # nested scopes are children of the enclosing table
-            sub.guard_name, sub.guard_attr = env.guard_name, env.guard_attr
+            sub.guard_name, sub.guard_attr, sub.guard_key = env.guard_name, env.guard_attr, env.guard_key
             for gen in gens:
                 for n in ast.walk(gen.target):
                     if isinstance(n, ast.Name):
@@ -410,6 +606,10 @@ class ModuleExtractor(object):
             else:
                 self.expr(sub, node.elt)
             return
+        if isinstance(node, ast.Call):
+            self.reflective_call(env, node)
+        elif isinstance(node, ast.Subscript):
+            self.reflective_item(env, node)
         for child in ast.iter_child_nodes(node):
             if not isinstance(child, (ast.expr_context, ast.operator, ast.unaryop, ast.boolop, ast.cmpop)):
                 self.expr(env, child)
@@ -442,6 +642,7 @@ class ModuleExtractor(object):
     def bind_name(self, env, name, line, val=OBJ):
         if env.calltime:
             env.localmods.pop(name, None)
+            env.localfrom.pop(name, None)
         elif env.kind == "module":
             self.add(stmt("def", line, bind=name, val=val))
         # class level bindings are class attributes, not module globals
@@ -484,6 +685,9 @@ class ModuleExtractor(object):
                 self.emit(env, st)
                 if env.calltime:
                     env.localmods.pop(bind, None)
+                    env.localfrom.pop(bind, None)
+                    if al.name != "*":
+                        env.localfrom[bind] = (src, al.name)
             else:
                 if env.calltime:
                     env.localmods.pop(bind, None)
@@ -515,6 +719,7 @@ class ModuleExtractor(object):
                 frec = self.new_func(self.qualname(env, node.name), node.lineno)
             frec["end"] = max(frec["end"], getattr(node, "end_lineno", node.lineno) or node.lineno)
             sub = _Env(tab, "function", True, frec, env)
+            sub.fnode = node
             for s in tab.get_symbols():
                 if s.is_declared_global() and s.is_assigned():
                     self.dyndefs.add(s.get_name())
@@ -642,7 +847,7 @@ class ModuleExtractor(object):
         """try statement in code that runs while the module is imported.  Layout in the module body:
         body, jump ELSE, handler 1, jump END, handler 2, jump END, ELSE: orelse, END: finalbody.  A statement of
         the body that raises continues at the first handler that catches the class of its exception."""
-        classes = {"I": _IMPERR, "N": _NAMEERR, "A": _ATTRERR}
+        classes = {"I": _IMPERR, "N": _NAMEERR, "A": _ATTRERR, "K": _KEYERR}
         ctx = dict((c, _Label() if any(_catches(h, names) for h in node.handlers) else None)
                    for c, names in classes.items())
         self.hstack.append(ctx)
@@ -686,18 +891,20 @@ class ModuleExtractor(object):
     def do_try(self, env, node):
         if not env.calltime:
             return self.do_try_import_time(env, node)
-        g_name, g_attr = env.guard_name, env.guard_attr
+        g_name, g_attr, g_key = env.guard_name, env.guard_attr, env.guard_key
         if any(_catches(h, _NAMEERR) for h in node.handlers):
             env.guard_name = True
         if any(_catches(h, _ATTRERR) for h in node.handlers):
             env.guard_attr = True
+        if any(_catches(h, _KEYERR) for h in node.handlers):
+            env.guard_key = True
         failed = None
         try:
             self.block(env, node.body)
         except _ImportFails as exc:
             failed = exc
         finally:
-            env.guard_name, env.guard_attr = g_name, g_attr
+            env.guard_name, env.guard_attr, env.guard_key = g_name, g_attr, g_key
         if failed is not None:
             handler = None
             for h in node.handlers:
@@ -816,8 +1023,12 @@ def extract(repo):
             data["all"][m] = ex.all
         data["funcs"].extend(ex.funcs)
         data["dyndefs"][m] = sorted(ex.dyndefs)
+        data.setdefault("brefl", {}).update(ex.brefl)
         if ex.dynattr:
             data.setdefault("dynattr", []).append(m)
+        for d in sorted(ex.dynstore):
+            if d not in data.setdefault("dynstore", []):
+                data["dynstore"].append(d)
     data["builtins"] = sorted(dir(builtins))
     # names every module object has before its body runs (probed on a scratch module of this interpreter)
     data["implicit"], data["pkgimplicit"] = implicit_names()
@@ -909,6 +1120,7 @@ def to_tla(data, name, entry_sets, trace=False, specdir=None):
     L.append("All == %s" % _fun((m, _set(data["all"][m])) for m in sorted(data["all"])))
     L.append("DynDefs == %s" % _fun((m, _set(data["dyndefs"][m])) for m in mods))
     L.append("DynAttr == %s" % _set(data.get("dynattr", [])))
+    L.append("DynStore == %s" % _set(sorted(data.get("dynstore", []))))
     funcs = data["funcs"]
     L.append("Funcs == %s" % _set(f["id"] for f in funcs))
     L.append("FMod == %s" % _fun((f["id"], _s(f["mod"])) for f in funcs))
@@ -921,6 +1133,15 @@ def to_tla(data, name, entry_sets, trace=False, specdir=None):
         (f["id"], "{%s}" % ", ".join("[root |-> %s, rv |-> %s, links |-> %s, line |-> %d]" % (
             _s(c["root"]), _s(c["rv"]), _seq(c["links"]), c["line"]) for c in f["chains"]))
         for f in funcs))
+    def refl_tla(d):
+        return ("[root |-> %s, rv |-> %s, links |-> %s, how |-> %s, names |-> %s, open |-> %s, pat |-> %s, "
+                "catches |-> %s, tested |-> %s, line |-> %d]" % (
+                    _s(d["root"]), _s(d["rv"]), _seq(d["links"]), _s(d["how"]), _set(d["names"]),
+                    "TRUE" if d["open"] else "FALSE", _s(d["pat"]), _set(d["catches"]),
+                    "TRUE" if d["tested"] else "FALSE", d["line"]))
+    L.append("FRefl == %s" % _fun(
+        (f["id"], "{%s}" % ", ".join(refl_tla(d) for d in f.get("refl", []))) for f in funcs))
+    L.append("BRefl == %s" % _fun((k, refl_tla(d)) for k, d in sorted(data.get("brefl", {}).items())))
     flowf = [f for f in funcs if f["fnodes"]]
     L.append("FlowFuncs == %s" % _set(f["id"] for f in flowf))
     L.append("FNodes == %s" % _fun(
@@ -957,4 +1178,5 @@ if __name__ == "__main__":
                           "chains": sum(len(f["chains"]) for f in d["funcs"]),
                           "flow_funcs": sum(1 for f in d["funcs"] if f["fnodes"]),
                           "flow_nodes": sum(len(f["fnodes"]) for f in d["funcs"]),
-                          "seeds": sum(len(f["fseeds"]) for f in d["funcs"])}))
+                          "seeds": sum(len(f["fseeds"]) for f in d["funcs"]),
+                          "refl": sum(len(f["refl"]) for f in d["funcs"]), "dynstore": d.get("dynstore", [])}))
